@@ -94,7 +94,6 @@ func VerifHarness_C15_cycle() {
 	alive0 := s.warriorLivingCount
 	cyc0 := s.cycleCount
 	front := s.warriors[0].pq.queue[s.warriors[0].pq.start]
-	w0alive := s.warriors[0].state == WarriorAlive
 
 	vPrune(false)
 	vAbstractArith(true)
@@ -107,9 +106,11 @@ func VerifHarness_C15_cycle() {
 	vAssert("report-address-below-M", !rec.badAddr)
 	vAssert("report-warrior-index", !rec.badIndex)
 	vAssert("task-announced-first", vImplies(rec.seenTask, rec.firstIsPop))
-	vAssert("one-pop-per-executed-task", vAnd(rec.nPop <= Address(n), vImplies(vAnd(alive0 >= 1, cyc0 < 100), rec.nPop >= 1)))
+	steppable := vAnd(cyc0 < 100, vOr(vAnd(n == 1, alive0 == 1), vAnd(n > 1, alive0 >= 2)))
+	vAssert("one-pop-per-executed-task", vAnd(rec.nPop <= Address(n), vImplies(steppable, rec.nPop >= 1)))
+	vAssert("no-report-when-not-steppable", vImplies(!steppable, vAnd(!rec.seenTask, vAnd(rec.nCycleStart == 0, rec.nCycleEnd == 0))))
 	if n == 1 {
-		vAssert("pop-carries-the-pc", vImplies(vAnd(w0alive, cyc0 < 100), vAnd(rec.nPop == 1, rec.lastPop == front)))
+		vAssert("pop-carries-the-pc", vImplies(steppable, vAnd(rec.nPop == 1, rec.lastPop == front)))
 	}
 	completed := s.cycleCount != cyc0
 	vAssert("cycle-end-iff-completed", (rec.nCycleEnd == 1) == completed)
